@@ -154,6 +154,24 @@ func (w *World) shapeOf(t *Term, depth int) Shape {
 			return Shape{{Hole: "bin8", Term: t.Args[0].String()}}
 		case "strings.Join":
 		}
+	case "arr":
+		// []byte{0x01, ...}: literal bytes
+		var b []byte
+		for _, a := range t.Args {
+			if a.Op != "const" {
+				b = nil
+				break
+			}
+			n, err := strconv.Atoi(a.Name)
+			if err != nil || n < 0 || n > 255 {
+				b = nil
+				break
+			}
+			b = append(b, byte(n))
+		}
+		if b != nil {
+			return Shape{{Lit: string(b)}}
+		}
 	case "slice":
 		// x[lo:hi] of a shaped value: unknown sub-range
 		return Shape{{Hole: "any", Term: t.String()}}
